@@ -8,9 +8,9 @@
 (* (harness/gram/src/names.rs: 0 = refused, 1 = accepted and reads back as  *)
 (* the input, 2 = panic, 3 = not applicable, 5 = accepted but altered).     *)
 (* The property: every path accepts s iff Valid(kind, s).  Every line is an *)
-(* initial state; each kind whose paths do not all agree with the predicate *)
-(* prints one MISMATCH record listing the failing paths (1-based indexes    *)
-(* into the path list of names.rs) with their outcomes.                     *)
+(* initial state; a line on which some kind's paths do not all agree with   *)
+(* the predicate prints one MISMATCH record listing, per such kind, the     *)
+(* failing paths (1-based indexes into the path list of names.rs).          *)
 (*                                                                         *)
 (* Named deviation (DESIGN 2.6), off in the property itself:                *)
 (*   "value_conversion_unvalidated": for the name types whose conversions   *)
@@ -31,20 +31,33 @@ Next == UNCHANGED l
 ValuePaths == {9, 10, 11, 12, 15}
 DerivedKinds == {"unique", "wellknown", "interface", "member", "error", "property"}
 
-SetToSeq(S) == CHOOSE f \in [1..Cardinality(S) -> S] : \A i, j \in 1..Cardinality(S) : i # j => f[i] # f[j]
-
-KindOk(r, kind) ==
-  LET v == r.k[kind]
-      ok == Valid(kind, r.s)
-      want == IF ok THEN 1 ELSE 0
-      bad == {i \in 1..Len(v) : v[i] # want /\ v[i] # 3}
-      explained == {i \in bad : kind \in DerivedKinds /\ i \in ValuePaths /\ v[i] = 1 /\ ~ok} IN
-  bad = {} \/
-    PrintT(<<"MISMATCH", ToJson([line |-> l, id |-> r.id, what |-> "accept", kind |-> kind, valid |-> ok, len |-> Len(r.s),
-                                 outcomes |-> v,
-                                 unexplained |-> SetToSeq(bad \ explained),
-                                 value_conversion_unvalidated |-> SetToSeq(explained)])>>)
-
-LineOk == LET r == Rec[l] IN \A kind \in DOMAIN r.k : KindOk(r, kind)
+(* The predicates are evaluated once per kind and line (TLCEval forces the set, which TLC would
+   otherwise re-evaluate on every membership test).  A line on which some kind's paths do not all
+   agree with the predicate prints one MISMATCH record:
+     - if every failing path is explained by the named deviation: the compact form
+       [dev |-> "value_conversion_unvalidated", kinds |-> {kinds concerned}]
+     - otherwise, per failing kind, the outcomes and the failing path indexes, split into those the
+       deviation explains and the unexplained ones (sets are printed as JSON arrays). *)
+LineOk ==
+  LET r == Rec[l]
+      validKinds == TLCEval({kind \in DOMAIN r.k : Valid(kind, r.s)})
+      \* all <<kind, path index>> whose outcome disagrees with the predicate (3 = not applicable)
+      bad == TLCEval(UNION {{<<kind, i>> : i \in {j \in 1..Len(r.k[kind]) :
+                                                   /\ r.k[kind][j] # 3
+                                                   /\ r.k[kind][j] # (IF kind \in validKinds THEN 1 ELSE 0)}} :
+                            kind \in DOMAIN r.k})
+      \* explained by the deviation: an accepted invalid string on a value-conversion path of a derived kind
+      expl == TLCEval({p \in bad : p[1] \in DerivedKinds /\ p[2] \in ValuePaths /\ r.k[p[1]][p[2]] = 1})
+      failing == {p[1] : p \in bad} IN
+  IF bad = {} THEN TRUE
+  ELSE IF bad = expl THEN
+    PrintT(<<"MISMATCH", ToJson([line |-> l, id |-> r.id, what |-> "accept",
+                                 dev |-> "value_conversion_unvalidated", kinds |-> failing])>>)
+  ELSE
+    PrintT(<<"MISMATCH", ToJson([line |-> l, id |-> r.id, what |-> "accept", len |-> Len(r.s), dev |-> "",
+              kinds |-> [kind \in failing |->
+                           [valid |-> kind \in validKinds, outcomes |-> r.k[kind],
+                            unexplained |-> {p[2] : p \in {q \in bad \ expl : q[1] = kind}},
+                            value_conversion_unvalidated |-> {p[2] : p \in {q \in expl : q[1] = kind}}]]])>>)
 Inv == LineOk \/ TRUE
 =============================================================================
